@@ -1635,7 +1635,7 @@ def case_sigs(ctx, case):
             a = ctx.driver.batch(node_requests(g))
             sig = node_sig(a[1], g['node'])
             if sig and sig not in sigs:
-                sigs[sig] = (None, a[1])
+                sigs[sig] = (None, a[1], g['node'])
     return sigs
 
 
@@ -1701,7 +1701,7 @@ def run(ctx):
                 'loaded configuration; non-trivial = a module that is registered with at least one configured parameter '
                 'entry, or rejected with an injected error')
     rng = ctx.rng
-    n = ctx.budget(450, 4500)
+    n = ctx.budget(1000, 10000)
     shrunk = 0
     idx = 0
     cases = []
@@ -1711,6 +1711,7 @@ def run(ctx):
         idx += 1
         cases.append(('gen', gen_case(rng, idx)))
     O01 = 0
+    prepared = []
     for origin, case in cases:
         if origin == 'corpus' and case.get('kind') == 'node':
             origin, case = 'gen', case['case']
@@ -1731,14 +1732,27 @@ def run(ctx):
             if g['node'] is not None:
                 g['pos'] = len(reqs)
                 reqs += node_requests(g)
+        mpos = None
         if out['merge'] is not None:
             mpos = len(reqs)
             reqs.append({'p': 'C10', 'k': 'merge', 'files': out['merge']['files_raw']})
             reqs.append({'p': 'C10', 'k': 'judge_merge', 'files': out['merge']['files_obs'], 'merged': out['merge']['merged']})
-        ans = ctx.driver.batch(reqs)
-        for x in ans:
-            if 'driver_error' in x:
-                raise RuntimeError(f'driver error: {x}')
+        prepared.append((origin, case, out, reqs, mpos))
+
+    def answered(chunk=40):
+        # one driver process per chunk of cases (starting the driver costs more than answering)
+        for i in range(0, len(prepared), chunk):
+            part = prepared[i:i + chunk]
+            ans = ctx.driver.batch([r for p in part for r in p[3]])
+            for x in ans:
+                if 'driver_error' in x:
+                    raise RuntimeError(f'driver error: {x}')
+            pos = 0
+            for origin, case, out, reqs, mpos in part:
+                yield origin, case, out, ans[pos:pos + len(reqs)], mpos
+                pos += len(reqs)
+
+    for origin, case, out, ans, mpos in answered():
         if origin == 'gen':
             res.count('path.' + case['path'])
             res.count('starts=%d' % len(out['gens']))
@@ -1859,17 +1873,19 @@ def run(ctx):
             sig = node_sig(judge, g['node'])
             if sig:
                 res.count('violation.' + sig)
-                vcase = {'kind': 'node', 'case': case}
+                vcase, vobs, vjudge = {'kind': 'node', 'case': case}, g['node'], judge
                 if not any(v['sig'] == sig for v in res.violations) and shrunk < 6:
                     shrunk += 1
                     try:
-                        vcase = {'kind': 'node', 'case': shrink_case(ctx, case, sig)}
+                        small = shrink_case(ctx, case, sig)
+                        _, vjudge, vobs = case_sigs(ctx, small)[sig]          # what the shrunk node shows
+                        vcase = {'kind': 'node', 'case': small}
                     except Exception:
-                        pass
+                        vcase, vobs, vjudge = {'kind': 'node', 'case': case}, g['node'], judge
                 res.violations.append({'sig': sig,
-                                       'what': f'{sig}: modules with an attachment the node can not provide: {judge["bad"]}; '
+                                       'what': f'{sig}: modules with an attachment the node can not provide: {vjudge["bad"]}; '
                                                f'cfg: {case_text(vcase["case"])} -> '
-                                               f'{ {k: g["node"][k] for k in NODE_KEYS} } judge={judge}',
+                                               f'{ {k: vobs[k] for k in NODE_KEYS} } judge={vjudge}',
                                        'case': vcase})
         if out['merge'] is not None:
             model, judge = ans[mpos], ans[mpos + 1]
